@@ -125,7 +125,7 @@ Handle(e) ==
                              /\ UNCHANGED <<conn, cfg, conf>>
     [] e.ev = "store"     -> (cfg.model => StoreDumpOK(e)) /\ UNCHANGED <<conn, cfg, store, conf>>
     [] e.ev = "block"     -> /\ Upd(e.c, OnBlock(conn[e.c]))
-                             /\ (cfg.tracer /\ ~conn[e.c].wild => RootsOK(conn[e.c]))
+                             /\ (cfg.tracer /\ ~conn[e.c].wild /\ ~conn[e.c].wfail => RootsOK(conn[e.c]))
     [] e.ev = "call"      -> Upd(e.c, OnCall(conn[e.c], e))
     [] e.ev = "callret"   -> Upd(e.c, OnCallRet(conn[e.c], e))
     [] e.ev = "write"     -> LET P == OnWrite([cs |-> conn[e.c], aux |-> [store |-> store, conf |-> conf]], e.b, e.failed, e.c) IN
